@@ -235,11 +235,11 @@ Proof.
   destruct dc0 as [|id|].
   3:{ destruct grp; unfold coord_stop, finish_stop; prj; (split; [jgo|split; [intros _; reflexivity|intros; congruence]]). }
   all: destruct hbq as [rid|]; destruct hbr; destruct ck; destruct (mem =? 0) eqn:M;
-       unfold coord_stop, finish_stop, hb_stop, remove_timer; prj; rewrite ?M; prj.
+       unfold coord_stop, finish_stop, hb_stop, remove_timer; prj; rewrite ?M; cbn [andb negb]; prj.
   all: try match goal with |- context [stop_tail ?st0 ?s0] =>
          let X := fresh in assert (X : Jcore r s0) by jgo;
          let Y := fresh in pose proof (stop_tail_J r st0 s0 eq_refl C2 X) as Y;
          destruct (stop_tail st0 s0) as [s3 o4]; prj; destruct Y; split; [|split; [intros _|intros; congruence]]; assumption end.
   all: (split; [|split; [intros _|intros; congruence]]; [jgo|reflexivity]).
-  Show.
-Abort.
+
+Time Qed.
